@@ -58,7 +58,7 @@ pub const SPELLINGS: [&[u8]; 6] = [b"0", b"1", b"-1", b"1.0", b"1e1", b"10"];
 pub fn sym_number() -> NumberBuf {
 	let k: usize = kani::any();
 	kani::assume(k < 6);
-	unsafe { NumberBuf::new_unchecked(smallvec::SmallVec::from_slice(SPELLINGS[k])) }
+	unsafe { NumberBuf::new_unchecked(crate::util::number_bytes(SPELLINGS[k])) }
 }
 
 /// A scalar of a CONCRETE variant (`kind`: n null, b boolean, # number, $ string) with a
